@@ -24,6 +24,7 @@ static std::string runOne(int workers, const std::vector<Prod> &prods, const vf:
   tr->add(vf::Ev("Begin").i("workers", workers));
   vf::Options o = opt;
   o.maxSteps = 20000;
+  o.pointAfterUnlock = true;
   vf::reset(o);
   vf::spawn("main",
             [tr, workers, &prods]()
